@@ -579,7 +579,7 @@ func TestVerif_C28(t *testing.T) {
 	defer srv.Stop()
 	admin := srv.Session(t, "admin", "")
 	defer admin.Close()
-	vh.Check(t, "schedule", 300, 700, func(rt *rapid.T) {
+	vh.Check(t, "schedule", 250, 400, func(rt *rapid.T) {
 		c28Run(rt, srv, admin, rec)
 	})
 }
